@@ -234,16 +234,19 @@ func c25(r *vkit.Run) {
 	be := bs.New("b1", func(x *e2e.Exchange) e2e.Action {
 		return e2e.Action{Status: 200, Body: []byte("ok"), Header: [][2]string{{"Connection", "close"}}, CloseAfter: true}
 	})
+	// backend-connection-stream family (c25stream.go): clusters WITH backend keep-alive, each with a raw early-reply backend
+	stream, streamClusters, streamRules := c25sSetup()
+	defer stream.close()
 	srv, err := e2e.Start(&e2e.Options{HTTPS: true,
 		TLSRule: `{"Version":"1","DefaultNextProtos":["h2","spdy/3.1","http/1.1"],"Config":{}}`,
-		Clusters: []e2e.Cluster{{
+		Clusters: append([]e2e.Cluster{{
 			Name: "c25", Hosts: []string{"c25.test"}, MaxIdleConnsPerHost: 0,
 			SubClusters: []e2e.SubCluster{{Name: "sub1", Weight: 100, Backends: []e2e.Backend{{Name: "b1", Addr: be.Addr, Port: be.Port, Weight: 10}}}},
-		}},
+		}}, streamClusters...),
 		DefaultProduct: "p_c25",
 		// any host (also hostile ones that fall to the default product) is routed to the backend
 		Files: map[string]string{
-			"server_data_conf/route_rule.data": `{"Version":"v1","ProductRule":{"p_c25":[{"Cond":"default_t()","ClusterName":"c25"}]}}`,
+			"server_data_conf/route_rule.data": `{"Version":"v1","ProductRule":{"p_c25":[` + streamRules + `,{"Cond":"default_t()","ClusterName":"c25"}]}}`,
 		},
 	})
 	if err != nil {
@@ -251,6 +254,7 @@ func c25(r *vkit.Run) {
 		return
 	}
 	defer srv.Close()
+	stream.register(srv)
 	var mu sync.Mutex
 	accepted := map[string]*c25Accepted{}
 	srv.Srv.CallBacks.AddFilter(bfe_module.HandleAfterLocation, func(req *bfe_basic.Request) (int, *bfe_http.Response) {
@@ -272,14 +276,19 @@ func c25(r *vkit.Run) {
 	var cases []*c25Case
 	if r.Replay != "" {
 		var w struct {
-			Case c25Case `json:"case"`
+			Case   c25Case   `json:"case"`
+			Stream *c25sCase `json:"stream_case"`
 		}
 		if err := r.LoadReplay(&w); err != nil {
 			r.Inconclusive(err.Error())
 			return
 		}
-		cases = append(cases, &w.Case)
 		r.SetMinDistinct(0)
+		if w.Stream != nil {
+			stream.run(r, srv, w.Stream)
+			return
+		}
+		cases = append(cases, &w.Case)
 	} else {
 		n := r.N(1500, 60000)
 		if v := os.Getenv("VERIF_DEBUG_N"); v != "" {
@@ -460,6 +469,11 @@ func c25(r *vkit.Run) {
 				r.Sample(w)
 			}
 		}
+	}
+	if r.Replay == "" {
+		mu.Unlock() // the accept filter runs for the stream family's requests too
+		stream.run(r, srv, nil)
+		mu.Lock()
 	}
 	for k, v := range e2e_panics(srv) {
 		if v != 0 {
